@@ -1,6 +1,7 @@
 import PrysmVerif.Generated.C15
 import PrysmVerif.Lemmas.C15Grid
 import PrysmVerif.Lemmas.C15Mtf
+import PrysmVerif.Lemmas.C15Difflim
 /-!
 # C15 — image formation obeys the convolution theorem; the MTF is a valid MTF
 
@@ -106,6 +107,42 @@ theorem gen_tfs {K : Type} [Field K] (f : K → K) (pi fx fy a b : K) (u v : Boo
       | (cases u <;> cases v <;>
           simp only [jitterFt, smearFt, pixelFt, olpfFt, Model.C15.jitterFt, Model.C15.smearFt, Model.C15.pixelFt,
             Model.C15.olpfFt, Num.ofInt, if_true, if_false, Bool.false_eq_true] <;> ring_nf)
+
+/-- the analytic transforms of the objects of `objects.py` (`slit_ft`: which widths are present decides between the sum
+of the two sinc's and one of them; `pinhole_ft`: `jinc(fr · 2π·radius)`) are the modelled formulas, over any field -/
+theorem gen_objs {K : Type} [Field K] (f : K → K) (pi fx fy a b : K) (u v : Bool) :
+    slitFt f fx fy a b u v = Model.C15.slitFt f fx fy a b u v ∧
+    pinholeFt f pi fx a = Model.C15.pinholeFt f pi fx a := by
+  refine ⟨?_, ?_⟩ <;>
+    first
+      | rfl
+      | (cases u <;> cases v <;>
+          simp only [slitFt, pinholeFt, Model.C15.slitFt, Model.C15.pinholeFt, Num.ofInt, if_true, if_false,
+            Bool.false_eq_true, Bool.and_true, Bool.and_false, Bool.true_and, Bool.false_and, Bool.not_true, Bool.not_false,
+            Bool.and_self] <;> ring_nf)
+
+/-- `otf.diffraction_limited_mtf`: the core formula `(2/π)(arccos ν − ν√(1−ν²))` and the normalised frequency
+`ν = min(|f / extinction|, 1)`, `extinction = 1/(λ/1000·F#)` (array clamp and scalar clamp agree) are the modelled ones,
+over every ordered field and for every interpretation of `arccos`, `sqrt`, `abs` -/
+theorem gen_difflim {K : Type} [Field K] [LinearOrder K] (arccos sqrt abs : K → K) (pi f w F nu : K) :
+    difflimCore arccos sqrt pi nu = Model.C15.difflimCore arccos sqrt pi nu ∧
+    difflimNu abs f w F = Model.C15.difflimNu abs f w F := by
+  refine ⟨?_, ?_⟩ <;>
+    first
+      | rfl
+      | (simp only [difflimCore, difflimNu, Model.C15.difflimCore, Model.C15.difflimNu, Num.npow, Num.ofInt] <;> ring_nf)
+
+/-- the atmospheric helpers of `otf.py` (`longexposure_otf` with its unit conversions, `komogorov`, `estimate_Cn`) are the
+modelled formulas, over every field and every interpretation of `exp` and of the real power -/
+theorem gen_atm {K : Type} [Field K] (exp : K → K) (rpow : K → K → K) (pi nu Cn z f lam h r r0 P T Ct : K) :
+    longExposureOtf exp rpow pi nu Cn z f lam h = Model.C15.longExposureOtf exp rpow pi nu Cn z f lam h ∧
+    komogorov rpow r r0 = Model.C15.komogorov rpow r r0 ∧
+    estimateCn P T Ct = Model.C15.estimateCn P T Ct := by
+  refine ⟨?_, ?_, ?_⟩ <;>
+    first
+      | rfl
+      | (simp only [longExposureOtf, komogorov, estimateCn, Model.C15.longExposureOtf, Model.C15.komogorov,
+          Model.C15.estimateCn, Num.npow, Num.ofInt, Num.ofFrac] <;> push_cast <;> ring_nf)
 
 /-! ## the DFT contract, from root-of-unity orthogonality -/
 
@@ -413,7 +450,78 @@ theorem analytic_tf_even (exp sinc cos : K → K) (pi fr fx fy a b : K) (u v : B
   · simp only [Model.C15.pixelFt, neg_mul, hsinc]
   · simp only [Model.C15.olpfFt, mul_neg, hcos]
 
+/-- the analytic object transforms handed to `apply_transfer_functions` as callables: a single slit has unit DC value and a
+pair of crossed slits the value 2 (the sum of two unit slits — an object spectrum, not a normalised blur), a pinhole
+`jinc 0`; all are even in the frequency -/
+theorem object_ft_dc_even (sinc jinc : K → K) (pi fr fx fy a b : K) (u v : Bool)
+    (hsinc0 : sinc 0 = 1) (hsinc : ∀ x, sinc (-x) = sinc x) (hjinc : ∀ x, jinc (-x) = jinc x) :
+    slitFt sinc 0 0 a b u v = (if u && v then 2 else 1) ∧ pinholeFt jinc pi 0 a = jinc 0 ∧
+    slitFt sinc (-fx) (-fy) a b u v = slitFt sinc fx fy a b u v ∧ pinholeFt jinc pi (-fr) a = pinholeFt jinc pi fr a := by
+  simp only [(gen_objs sinc pi _ _ a b u v).1, (gen_objs jinc pi _ 0 a b u v).2]
+  refine ⟨?_, ?_, ?_, ?_⟩
+  · cases u <;> cases v <;> simp [Model.C15.slitFt, hsinc0] <;> norm_num
+  · simp [Model.C15.pinholeFt]
+  · cases u <;> cases v <;> simp [Model.C15.slitFt, neg_mul, hsinc]
+  · simp only [Model.C15.pinholeFt, neg_mul, hjinc]
+
 end analytic
+
+/-- `diffraction_limited_mtf(fno, wavelength, frequencies)` is a valid MTF — with the REAL `arccos`, `√`, `|·|`, `π`, for
+EVERY frequency, wavelength and f-number (no sign or size hypothesis), clamp included: it is 1 at zero frequency, lies in
+`[0, 1]`, is even in the frequency, is 0 at and beyond the cut-off `1/(λ/1000·F#)`, and NEVER INCREASES with `|f|` -/
+theorem difflim_valid_mtf (f w F : ℝ) :
+    let mtf := fun f : ℝ => difflimCore Real.arccos Real.sqrt Real.pi (difflimNu (fun x : ℝ => |x|) f w F)
+    mtf 0 = 1 ∧ 0 ≤ mtf f ∧ mtf f ≤ 1 ∧ mtf (-f) = mtf f ∧ (1 ≤ |f / (1 / (w / 1000 * F))| → mtf f = 0) ∧
+    (∀ f₂ : ℝ, |f| ≤ |f₂| → mtf f₂ ≤ mtf f) := by
+  intro mtf
+  have hm : ∀ g, mtf g = coreR (Model.C15.difflimNu (fun x : ℝ => |x|) g w F) := fun g => by
+    simp only [mtf, (gen_difflim Real.arccos Real.sqrt (fun x : ℝ => |x|) Real.pi g w F _).1,
+      (gen_difflim Real.arccos Real.sqrt (fun x : ℝ => |x|) Real.pi g w F 0).2, difflimCore_real]
+  obtain ⟨h0, h1⟩ := difflimNu_range f w F
+  refine ⟨?_, ?_, ?_, ?_, fun hc => ?_, fun f₂ h12 => ?_⟩
+  · rw [hm, difflimNu_zero, coreR_zero]
+  · rw [hm]; exact coreR_nonneg h0 h1
+  · rw [hm]; exact coreR_le_one h0
+  · rw [hm, hm, difflimNu_neg]
+  · rw [hm, difflimNu_cutoff f w F hc, coreR_one]
+  · rw [hm, hm]; exact coreR_antitone h0 (difflimNu_mono f f₂ w F h12) (difflimNu_range f₂ w F).2
+
+/-- `longexposure_otf` is a valid OTF modulus — with the REAL `exp`, real power and `π`, for every structure constant `Cn`,
+every non-negative path length, focal length, wavelength and `h`: 1 at zero frequency, in `(0, 1]` for every frequency
+`ν ≥ 0`, and never increasing with `ν` -/
+theorem longexposure_otf_valid (nu nu₂ Cn z f lam h : ℝ) (hz : 0 ≤ z) (hf : 0 ≤ f) (hl : 0 ≤ lam) (hh : 0 ≤ h) (hnu : 0 ≤ nu) :
+    let otf := fun nu : ℝ => longExposureOtf Real.exp (fun x y : ℝ => x ^ y) Real.pi nu Cn z f lam h
+    otf 0 = 1 ∧ 0 < otf nu ∧ otf nu ≤ 1 ∧ (nu ≤ nu₂ → otf nu₂ ≤ otf nu) := by
+  intro otf
+  have hm : ∀ x, otf x = Real.exp (-(Real.pi * Real.pi) * 2 * h * (Cn * Cn) *
+      (z * (f / 1000) ^ ((5 : ℝ) / 3) / (lam / 1000000 * (lam / 1000000) * (lam / 1000000))) * (x / 1000) ^ ((5 : ℝ) / 3)) := fun x => by
+    simp only [otf, (gen_atm Real.exp (fun x y : ℝ => x ^ y) Real.pi x Cn z f lam h 0 0 0 0 0).1, Model.C15.longExposureOtf, Num.ofInt]
+    push_cast; rfl
+  have hc : -(Real.pi * Real.pi) * 2 * h * (Cn * Cn) *
+      (z * (f / 1000) ^ ((5 : ℝ) / 3) / (lam / 1000000 * (lam / 1000000) * (lam / 1000000))) ≤ 0 := by
+    have hl6 : 0 ≤ lam / 1000000 := by linarith
+    have h1 : 0 ≤ (f / 1000) ^ ((5 : ℝ) / 3) := Real.rpow_nonneg (by positivity) _
+    have h2 : 0 ≤ z * (f / 1000) ^ ((5 : ℝ) / 3) / (lam / 1000000 * (lam / 1000000) * (lam / 1000000)) :=
+      div_nonneg (mul_nonneg hz h1) (mul_nonneg (mul_nonneg hl6 hl6) hl6)
+    have h3 : 0 ≤ Real.pi * Real.pi * 2 * h * (Cn * Cn) :=
+      mul_nonneg (mul_nonneg (by positivity) hh) (mul_self_nonneg Cn)
+    nlinarith [mul_nonneg h3 h2]
+  have hp : ∀ x : ℝ, 0 ≤ x → 0 ≤ (x / 1000) ^ ((5 : ℝ) / 3) := fun x hx => Real.rpow_nonneg (by positivity) _
+  refine ⟨?_, ?_, ?_, fun h12 => ?_⟩
+  · rw [hm]; simp [Real.zero_rpow]
+  · rw [hm]; exact Real.exp_pos _
+  · rw [hm, ← Real.exp_zero]; exact Real.exp_le_exp.2 (mul_nonpos_of_nonpos_of_nonneg hc (hp nu hnu))
+  · rw [hm, hm]
+    apply Real.exp_le_exp.2
+    have : (nu / 1000) ^ ((5 : ℝ) / 3) ≤ (nu₂ / 1000) ^ ((5 : ℝ) / 3) :=
+      Real.rpow_le_rpow (by positivity) (by linarith) (by norm_num)
+    exact mul_le_mul_of_nonpos_left this hc
+
+/-- non-vacuity: the hypotheses of `longexposure_otf_valid` are plain sign conditions, e.g. z = 1000 m, f = 500 mm, λ = 0.55 µm -/
+example : (0 : ℝ) ≤ 1000 ∧ (0 : ℝ) ≤ 500 ∧ (0 : ℝ) ≤ 0.55 ∧ (0 : ℝ) ≤ 2.91 ∧ (0 : ℝ) ≤ 30 := by norm_num
+
+/-- non-vacuity of the cut-off clause: f/4 at λ = 0.5 µm has its cut-off at 500 cy/mm, and 600 cy/mm lies beyond it -/
+example : (1 : ℝ) ≤ |600 / (1 / (0.5 / 1000 * 4))| := by norm_num [abs_of_nonneg]
 
 /-! ## non-vacuity: the hypotheses are met by the real thing -/
 
@@ -425,6 +533,10 @@ example (n : ℕ) [NeZero n] : IsPrimitiveRoot (Complex.exp (2 * Real.pi * Compl
 noncomputable example : Kernel (ZMod 5 × ZMod 8) ℂ :=
   gridKernel 5 8 _ _ (Complex.isPrimitiveRoot_exp 5 (by norm_num)).inv (Complex.isPrimitiveRoot_exp 8 (by norm_num)).inv
     (by norm_num) (by norm_num)
+
+/-- the hypotheses of `object_ft_dc_even` are met, e.g. by `sinc = jinc = 1 - x²` over ℚ -/
+example : (fun x : ℚ => 1 - x * x) 0 = 1 ∧ ∀ x : ℚ, (fun x : ℚ => 1 - x * x) (-x) = (fun x : ℚ => 1 - x * x) x :=
+  ⟨by norm_num, fun x => by ring⟩
 
 /-- the real part fixes embedded reals -/
 example (r : ℝ) : (fun z : ℂ => (z.re : ℂ)) (Complex.ofRealHom r) = Complex.ofRealHom r := cOps_re r
